@@ -407,7 +407,7 @@ class StoreWorld:
         self.cond_id = f"cron_{cfg['expr']}"
         self.now = 0
         self.model_last: int | None = None   # last firing the evaluator knows of (follows the implementation
-        self.fired_ever = False               # after a reported, classified violation: see _store_unit)
+        self.fired_ever = False               # after a reported, classified violation: see _store_chunk)
         self.orc = Oracle(cfg["expr"], int(STORE_T0), STORE_HORIZON, cfg["window"], cfg["min_interval"],
                           cfg["strict"], cfg["tolerance"])
 
